@@ -19,7 +19,7 @@ int fragsize_capacity(const std::string &qtype, const std::string &enc)
 	return 1200;
 }
 
-void gen_client_cfg(Rng &r, J &c, bool allow_raw, bool allow_auto_type)
+void gen_client_cfg(Rng &r, J &c, bool allow_raw, bool allow_auto_type, int domlen, int min_frag)
 {
 	std::string qt;
 	int ti = (int)r.range(0, allow_auto_type ? 8 : 6);
@@ -37,9 +37,11 @@ void gen_client_cfg(Rng &r, J &c, bool allow_raw, bool allow_auto_type)
 		int f;
 		switch (r.range(0, 3)) { case 0: f = (int)r.range(2, 30); break; case 1: f = (int)r.range(30, 120); break; default: f = (int)r.range(50, cap); }
 		if (f > cap) f = cap;
+		if (f < min_frag) f = min_frag;
 		c.set("fragsize", f);
 	}
-	if (r.chance(0.5)) c.set("maxlen", (int)r.range(100, 255));
+	// -M: the documented precondition is at least 24 characters left after the domain
+	if (r.chance(0.5)) c.set("maxlen", (int)r.range(std::max(100, domlen + 24), 255));
 	c.set("raw", allow_raw && r.chance(0.15));
 	c.set("lat_up_us", (long long)r.pick_latency());
 	c.set("lat_dn_us", (long long)r.pick_latency());
@@ -92,7 +94,7 @@ J gen_tunnel(uint64_t seed, const J &ov)
 	if (r.chance(0.3)) cfg.set("srv_mtu", (int)r.range(300, 1400));
 	cfg.set("residue", (int)r.range(0, 4));
 	J cl = J::arr();
-	for (int i = 0; i < ncli; i++) { J c = J::obj(); gen_client_cfg(r, c, true, mode != "clean" || r.chance(0.2)); cl.push(c); }
+	for (int i = 0; i < ncli; i++) { J c = J::obj(); gen_client_cfg(r, c, true, mode != "clean" || r.chance(0.2), (int)dom.size(), mode == "recover" ? 20 : 2); cl.push(c); }
 	if (ov.has("qtype")) for (auto &c : cl.a) c.set("qtype", ov.gets("qtype"));
 	if (ov.has("downenc")) for (auto &c : cl.a) c.set("downenc", ov.gets("downenc"));
 	if (ov.has("lazy")) for (auto &c : cl.a) c.set("lazy", (int)ov.geti("lazy"));
@@ -143,6 +145,18 @@ J gen_tunnel(uint64_t seed, const J &ov)
 		f.set("p_delay", r.chance(0.6) ? r.uniform() * 0.5 : 0.0);
 		f.set("max_delay_us", (long long)r.range(1000, 5000000));
 		cfg.set("faults", f);
+		// packets that must be deliverable: fit in 16 fragments both ways (reference arithmetic, Base32 worst case upstream)
+		int fit = 300;
+		{
+			const J &c0 = cl.a[0];
+			int M = c0.geti("maxlen") ? (int)c0.geti("maxlen") : 255;
+			int space = M - (int)dom.size() - 8; space -= space / 57;
+			int up = space * 5 / 8 * 16 - 30;
+			if (up < fit) fit = up;
+			if (c0.geti("fragsize")) { int dn = (int)c0.geti("fragsize") * 16 - 30; if (dn < fit) fit = dn; }
+			if (fit < 40) fit = 40;
+		}
+		cfg.set("fit_len", fit);
 		// traffic during the fault window (creates in-flight state) ...
 		gen_traffic(r, ops, "c0", "srv", (int)r.range(5, 40), 0.1, 1 + fdur, ser, 1200, true);
 		gen_traffic(r, ops, "srv", "c0", (int)r.range(5, 40), 0.1, 1 + fdur, ser, 1200, true);
@@ -153,7 +167,7 @@ J gen_tunnel(uint64_t seed, const J &ov)
 			for (int side = 0; side < 2; side++) {
 				J op = J::obj();
 				op.set("t", (long long)((t + side * p * 0.37) * 1e6)); op.set("op", "tun"); op.set("at", side ? "srv" : "c0"); op.set("ser", (long long)++ser);
-				op.set("len", (int)r.range(40, 300)); op.set("body", "rnd"); op.set("dst", side ? "c0" : "srv"); op.set("src", side ? "ext" : "c0");
+				op.set("len", (int)r.range(40, fit)); op.set("body", "rnd"); op.set("dst", side ? "c0" : "srv"); op.set("src", side ? "ext" : "c0");
 				ops.push(op);
 			}
 		}
